@@ -7,21 +7,28 @@ flow on every arc and every block counter is the block's inflow; the instrumente
 the notes only; a function is executed iff its entry arc was taken; a line that lives in one block
 gets that block's count – also end to end, from the gcda records to the line count `compute`
 reports (Props/C08EndToEnd.lean: `C08_line_count_single_block_end_to_end`, `…_k_runs`).
+Props/C08Records.lean: the instrumented lines over the LINES records of the file (false for format
+≥ 8: finding C08-gcno8-line-range-filter); Props/C08Sum.lean: several functions per file – the
+reported count is the sum of the functions' shares.
 What is only CHECKED (harness/c08): that `Gcno::compute` reports the same per-line counts,
 instrumented sets and executed flags as the external program `llvm-cov gcov` on generated C
-programs – no theorem can quantify over an external tool.
+programs compiled in six gcov format versions – no theorem can quantify over an external tool.
 -/
 import GrcovModel.Lemmas.GcnoFinal
 import GrcovModel.Lemmas.GcnoFlow
 import GrcovModel.Lemmas.GcnoCert
 import GrcovModel.Props.C08EndToEnd
 import GrcovModel.Props.C08MultiBlock
+import GrcovModel.Props.C08Records
+import GrcovModel.Props.C08Sum
 namespace Grcov.Props.C08
 open Grcov Grcov.Gcno AList Outcome
 
 /-- The instrumented lines of a file come from the gcno only: whatever the gcda list, file `k` of
 an accepted result reports line `l` iff some function of the notes with file name `k` has a block
-that lists `l`. -/
+that lists `l` – `b.lines` being the lines `read_lines` KEPT. Over the LINES records of the file
+(what llvm-cov reports) the clause is `C08_instrumented_lines_are_the_kept_lines`,
+`…_are_listed_lines_partial` and, for format ≥ 8, `…_are_listed_lines_false` (Props/C08Records.lean). -/
 theorem C08_instrumented_lines_from_gcno_only (g : Notes) (ds : List Gcda) (br : Bool)
     (r : List (Bytes × Cov)) (h : compute g ds br = ok r) (k : Bytes) (cov : Cov)
     (hk : get? r k = some cov) (l : Nat) :
